@@ -240,6 +240,7 @@ func init() {
 
 func init() {
 	families["C01"] = &rt.Family{Prop: "C01", Module: "MC_C01", PackSize: 1, Judge: "build", JudgeBuild: true,
+		LayoutBuilds: true,
 		MixedPacks: func(tier string) int {
 			if tier == "thorough" {
 				return 3000
